@@ -105,15 +105,27 @@ def run(repo: Repo, rep: Report) -> None:
     wx = {}
     wattrs = set()
     for cls, body in _isinstance_arms(wb, vv):
+        attr_dicts = {norm(c.args[0]) for s in body for c in ast.walk(s) if isinstance(c, ast.Call) and norm(c.func).endswith("AttributesNSImpl") and c.args and isinstance(c.args[0], ast.Name)}
         for n in [x for s in body for x in ast.walk(s)]:
             if isinstance(n, ast.Call) and isinstance(n.func, ast.Attribute) and n.func.attr == "startElementNS" and n.args and isinstance(n.args[0], ast.Tuple):
                 wx[cls] = n.args[0].elts[1].value if isinstance(n.args[0].elts[1], ast.Constant) else None
-            if cls == "Literal" and isinstance(n, ast.Assign) and isinstance(n.targets[0], ast.Subscript) and norm(n.targets[0].value) == "attr_vals" and isinstance(n.targets[0].slice, ast.Tuple):
+            if cls == "Literal" and isinstance(n, ast.Assign) and isinstance(n.targets[0], ast.Subscript) and norm(n.targets[0].value) in attr_dicts and isinstance(n.targets[0].slice, ast.Tuple):
                 wattrs.add((norm(n.targets[0].slice.elts[0]), n.targets[0].slice.elts[1].value))
     rx = {}
     rattrs = set()
+    elem = pt.args.args[0].arg
+    tagvars = {elem + ".tag"}
+    for n in own_nodes(pt):
+        if isinstance(n, ast.Assign):
+            tg, vals = n.targets[0], n.value
+            if isinstance(tg, ast.Tuple) and isinstance(vals, ast.Tuple):
+                for t_, v_ in zip(tg.elts, vals.elts):
+                    if norm(v_) == elem + ".tag":
+                        tagvars.add(norm(t_))
+            elif norm(vals) == elem + ".tag":
+                tagvars.add(norm(tg))
     for n in ast.walk(pt):
-        if isinstance(n, ast.If) and isinstance(n.test, ast.Compare) and norm(n.test.left) == "tag" and isinstance(n.test.comparators[0], ast.BinOp):
+        if isinstance(n, ast.If) and isinstance(n.test, ast.Compare) and norm(n.test.left) in tagvars and isinstance(n.test.comparators[0], ast.BinOp):
             c = n.test.comparators[0]
             local = c.right.value if isinstance(c.right, ast.Constant) else None
             cls = None
@@ -125,7 +137,7 @@ def run(repo: Repo, rep: Report) -> None:
                         for a in [y for s in n.body for y in ast.walk(s)]:
                             if isinstance(a, ast.Assign) and norm(a.targets[0]) == x.value.id and isinstance(a.value, ast.Call):
                                 cls = norm(a.value.func)
-                if isinstance(x, ast.Call) and norm(x.func) == "element.get" and x.args:
+                if isinstance(x, ast.Call) and norm(x.func) == elem + ".get" and x.args:
                     a0 = x.args[0]
                     if isinstance(a0, ast.Constant):
                         rattrs.add(("None", a0.value))
